@@ -18,7 +18,7 @@ from aiocoap import Message, GET, PUT, NON, CON, error, resource
 PROP = "C18"
 LEVEL = "model_checking"
 RULE = ("E2: Context.shutdown() injected after every step of the default run (K=1) and of every one-deviation run (K=2; drop, "
-        "duplicate, reorder) of thirteen busy scenarios (among them an observation whose first notification is block-wise and observations whose "
+        "duplicate, reorder) of fourteen busy scenarios (among them an observation whose iterating consumer task has been cancelled, an observation whose first notification is block-wise and observations whose "
         "consumer subscribes only after the shutdown), plain and with the loop stalling for 0.15 s / 3.5 s after the 1st..6th loop iteration "
         "of the shutdown (timers due in between run late), followed by a full drain; distinct = distinct schedule")
 ASSUMPTIONS = [
@@ -32,7 +32,7 @@ OCTX = ("2001:db8::b", 40000)    # bystander context
 OSRV = ("2001:db8::2", 5683)     # bystander's server
 
 SCENARIOS = ("await-ack", "await-separate", "bw-up", "bw-down", "obs-client", "obs-server", "backlog", "slow-handler", "slow-twice", "dedup-alive",
-             "obs-client-bw", "obs-client-late", "obs-client-late-plain")
+             "obs-client-bw", "obs-client-late", "obs-client-late-plain", "obs-client-iter-gone")
 STALLS = [(j, dt) for j in (1, 2, 3, 4, 6) for dt in (0.15, 3.5)]   # the loop stalls for dt seconds after the j-th iteration of the shutdown
 
 
@@ -147,7 +147,7 @@ class ShutScenario(NetScenario):
             w.add_peer(RefBlockServer("peer", *PEER, representation=b"ok", szx=0))
         elif kind == "bw-down":
             w.add_peer(RefBlockServer("peer", *PEER, representation=bytes(range(70)), szx=0))
-        elif kind in ("obs-client", "obs-client-late", "obs-client-late-plain"):
+        elif kind in ("obs-client", "obs-client-late", "obs-client-late-plain", "obs-client-iter-gone"):
             st.notifier = w.add_peer(Notifier("peer", *PEER))
         elif kind == "obs-client-bw":
             w.add_peer(ObsBlockServer("peer", *PEER))
@@ -179,6 +179,16 @@ class ShutScenario(NetScenario):
                 st.obsreq = r
                 r.observation.register_errback(lambda e: st.obs_events.append(e))
                 r.observation.register_callback(lambda m: None)
+            elif kind == "obs-client-iter-gone":
+                # the application consumes the observation in a task of its own - and cancels that task later on
+                r = st.v.ctx.request(req(st.v, PEER, code=GET, uri_path=["o"], observe=0), handle_blockwise=False)
+                st.futs.append(("obs-first", r.response))
+                st.obsreq = r
+
+                async def consume():
+                    async for _ in r.observation:
+                        pass
+                st.consumer = st.world.loop.create_task(consume())
             elif kind in ("obs-client-late", "obs-client-late-plain"):
                 # the application awaits the first response and only then (here: after the shutdown) turns to the observation
                 r = st.v.ctx.request(req(st.v, PEER, code=GET, uri_path=["o"], observe=0), **({"handle_blockwise": False} if kind.endswith("plain") else {}))
@@ -191,6 +201,11 @@ class ShutScenario(NetScenario):
             elif kind == "dedup-alive":
                 st.world.emit(PEER, V, rc.encode((rc.CON, 1, 0x5001, b"\x0b", [(11, b"fast")], b"")))
         st.script.append(("start", start))
+        if kind == "obs-client-iter-gone":
+            st.script.append(("first response", lambda st: st.notifier.first_response(1, b"v1")))
+            st.script.append(("notify", lambda st: st.notifier.notify(2, b"v2", con=True)))
+            st.script.append(("consumer cancelled", lambda st: st.consumer.cancel()))
+            st.script.append(("notify", lambda st: st.notifier.notify(3, b"v3", con=False)))
         if kind in ("obs-client", "obs-client-late", "obs-client-late-plain"):
             st.script.append(("first response", lambda st: st.notifier.first_response(1, b"v1")))
             st.script.append(("notify", lambda st: st.notifier.notify(2, b"v2", con=True)))
@@ -246,7 +261,10 @@ class ShutScenario(NetScenario):
             st.violations.append(Violation("shutdown-does-not-complete", "returns within SHUTDOWN_TIMEOUT (3 s)", "still running",
                                            "protocol.py:Context.shutdown", {}, key="hang"))
             return
-        if t.exception() is not None:
+        if t.cancelled():
+            st.violations.append(Violation("shutdown-raises", "returns", "CancelledError (nobody cancelled the shutdown)",
+                                           "protocol.py:Context.shutdown", {}, key="CancelledError"))
+        elif t.exception() is not None:
             st.violations.append(Violation("shutdown-raises", "returns", core.exc_desc(t.exception()), core.site_of(t.exception()), {},
                                            key=type(t.exception()).__name__))
         st.shut_done_at = w.loop.time()
@@ -293,7 +311,7 @@ class ShutScenario(NetScenario):
                 st.violations.append(Violation("late-subscriber", "iteration ends with a library error",
                                                "cancelled" if ct.cancelled() else core.exc_desc(ct.exception()) if ct.exception() else "ended silently",
                                                "protocol.py:ClientObservation.__aiter__", {}, key="iter-kind"))
-        if st.obs_alive_at_shut:
+        if st.obs_alive_at_shut and self.kind != "obs-client-iter-gone":
             if len(st.obs_events) != 1 or not isinstance(st.obs_events[0], error.Error):
                 st.violations.append(Violation("observation-not-terminated", "one errback with a library error",
                                                [core.exc_desc(e) for e in st.obs_events], "protocol.py", {}, key="obs"))
